@@ -295,12 +295,12 @@ def asyncServerFrame (resp : Message) (reqQuery : Bytes) : Bytes :=
 def UTF8_FORMAT : Nat := 3
 
 /-- `create_error_message(code, msg)`: builder with the error code, the text as body, body format UTF-8. -/
-def createErrorMessage (code : Nat) (msg : Bytes) : Message :=
+def wireErrorMessage (code : Nat) (msg : Bytes) : Message :=
   (Builder.mk 0 false code 0 UTF8_FORMAT [] msg).build
 
 /-- `create_error_response_like(request, code, msg)`: echo id and query, patch `query_length` and `length`. -/
 def createErrorResponseLike (reqId : Nat) (reqQuery : Bytes) (code : Nat) (msg : Bytes) : Message :=
-  let e := createErrorMessage code msg
+  let e := wireErrorMessage code msg
   { header := { e.header with id := reqId, queryLength := reqQuery.length,
                               length := 48 + reqQuery.length + e.header.bodyLength }
     query := reqQuery, body := e.body }
@@ -308,7 +308,7 @@ def createErrorResponseLike (reqId : Nat) (reqQuery : Bytes) (code : Nat) (msg :
 /-- `create_error_response_unstamped_view(view, code, msg)`: only the id is set; the query is left to the
 transport boundary. -/
 def createErrorResponseUnstamped (reqId : Nat) (code : Nat) (msg : Bytes) : Message :=
-  let e := createErrorMessage code msg
+  let e := wireErrorMessage code msg
   { e with header := { e.header with id := reqId } }
 
 /-- `response_header_builder`: `QueryFormat::try_from(qf).unwrap_or(RawBinary)` keeps 0 and 1, maps the rest to 0. -/
